@@ -118,7 +118,7 @@ def validUtf8 : Bytes → Bool
       | _ => false
     else false
 
-/-! ### Router.formatPath (strictLastSlash = false, the default; no InterceptAll) -/
+/-! ### Router.formatPath (no InterceptAll) -/
 
 def slashOrSpaceRev (s : Bytes) : Nat :=
   match s with
@@ -129,10 +129,10 @@ def slashOrSpaceRev (s : Bytes) : Nat :=
 def trimRightSlashSpace (s : Bytes) : Bytes :=
   (Bytes.dropSpaces slashOrSpaceRev s.length s.reverse).reverse
 
-def formatPath (path : Bytes) : Bytes :=
+def formatPath (strict : Bool) (path : Bytes) : Bytes :=
   if path = [] ∨ path = [slash] then [slash] else
   let p1 := Bytes.trimSpace path
-  let p2 := if Bytes.hasSuffix p1 [slash] then trimRightSlashSpace p1 else p1
+  let p2 := if !strict && Bytes.hasSuffix p1 [slash] then trimRightSlashSpace p1 else p1
   match p2 with
   | [] => [slash]
   | [0x2F] => [slash]
@@ -234,6 +234,7 @@ inductive Kind where
 structure Mount where
   kind : Kind
   enc : Bool            -- rux.UseEncodedPath
+  strict : Bool := false  -- rux.StrictLastSlash
   pfx : Bytes
   exts : List Bytes     -- StaticFiles only: the alternatives of the exts argument
   target : Bytes
@@ -248,11 +249,15 @@ def extsOk (exts : Option (List Bytes)) (v : Bytes) : Bool :=
   | none => true
   | some es => es.any (extMatch v)
 
+/-- the literal part of the registered route: `formatPath(pfx ++ "/{file:…}")` puts exactly one '/' in
+    front ("static" → "/static/", "/" → "/", "//a" → "/a/", "/a/" → "/a//") -/
+def routeStatic (pfx : Bytes) : Bytes := slash :: Bytes.trimLeftByte slash (pfx ++ [slash])
+
 /-- the route `pfx/{file:.+}` resp. `pfx/{file:.+\.(?:exts)}` applied to the formatted request path:
     the value of the path variable `file`.  (`.` does not match a newline; the route regex is anchored.) -/
 def capture (pfx : Bytes) (exts : Option (List Bytes)) (p : Bytes) : Option Bytes :=
-  if Bytes.hasPrefix p (pfx ++ [slash]) then
-    let v := p.drop (pfx.length + 1)
+  if Bytes.hasPrefix p (routeStatic pfx) then
+    let v := p.drop (routeStatic pfx).length
     if v ≠ [] ∧ 0x0A ∉ v ∧ extsOk exts v = true then some v else none
   else none
 
@@ -277,7 +282,7 @@ def httpServeFile (look : Bytes → Node) (urlPath f : Bytes) : Resp :=
 
 /-- a GET request `q` to a router that has exactly the route(s) of one Static* call -/
 def serve (look : Bytes → Node) (m : Mount) (q : Req) : Resp :=
-  let p1 := formatPath (if m.enc then q.esc else q.path)
+  let p1 := formatPath m.strict (if m.enc then q.esc else q.path)
   match m.kind with
   | .dir | .fs =>
     match capture m.pfx none p1 with
@@ -291,7 +296,7 @@ def serve (look : Bytes → Node) (m : Mount) (q : Req) : Resp :=
     | none => { status := 404 }
     | some v => fileServer look m.target v     -- c.Req.URL.Path = c.Param("file")
   | .file =>
-    if p1 = formatPath m.pfx then httpServeFile look q.path m.target else { status := 404 }
+    if p1 = formatPath m.strict m.pfx then httpServeFile look q.path m.target else { status := 404 }
 
 /-! ### which configurations the model covers (the driver answers `unsupported` otherwise) -/
 
@@ -302,13 +307,8 @@ def safePrefixByte (b : Nat) : Bool :=
 def alnum (b : Nat) : Bool :=
   (0x30 ≤ b && b ≤ 0x39) || (0x41 ≤ b && b ≤ 0x5A) || (0x61 ≤ b && b ≤ 0x7A)
 
-/-- "" or "/seg/seg…" with non-empty elements over `[A-Za-z0-9._~-]` that are not "." / ".." -/
-def okPrefix (p : Bytes) : Bool :=
-  p = [] ||
-  (match p with
-   | 0x2F :: t => (Bytes.splitOnByte slash t).all fun s =>
-       s ≠ [] && s.all safePrefixByte && s ≠ [dot] && s ≠ [dot, dot]
-   | _ => false)
+/-- any string over `[A-Za-z0-9._~-]` and '/' (no regex or pattern meta characters, no white space) -/
+def okPrefix (p : Bytes) : Bool := p.all fun b => safePrefixByte b || b = slash
 
 /-- a clean absolute path other than "/" -/
 def okAbs (p : Bytes) : Bool :=
@@ -319,7 +319,7 @@ def okAbs (p : Bytes) : Bool :=
 def Mount.supported (m : Mount) : Bool :=
   okAbs m.target &&
   (match m.kind with
-   | .file => okPrefix m.pfx && m.pfx ≠ []
+   | .file => okPrefix m.pfx
    | .files => okPrefix m.pfx && m.exts ≠ [] && m.exts.all (fun e => e ≠ [] && e.all alnum)
    | _ => okPrefix m.pfx)
 
